@@ -497,7 +497,11 @@ func runC19(c *Ctx) (int, error) {
 				continue
 			}
 			p := filepath.Join(sub, fmt.Sprintf("%s%d.bop", pc.Part, pc.Ci))
-			texts[p] = ast.Render(pc.Tokens, ast.Layouts[(ci+c.Seed)%len(ast.Layouts)])
+			lay := ast.Layouts[(ci+c.Seed)%len(ast.Layouts)]
+			if lay.Unspecified {
+				lay = ast.Layouts[0] // (only layouts whose texts must be accepted)
+			}
+			texts[p] = ast.Render(pc.Tokens, lay)
 			_ = os.WriteFile(p, []byte(texts[p]), 0o644)
 		}
 		var anyPath string
